@@ -1,9 +1,98 @@
 import AioModel.Wire
-/-! Driver commands of property C11 (stub until the model exists). -/
+import AioModel.C11
+import AioModel.C11Conc
+/-!
+Driver commands of property C11.
+
+`w <useMask> <compress> <notakeover> <limit> <op>…` — sequential writer program
+  * `S|<opcode>|<msg hex>|<override>|<mask hex>|<z hex>` = `send_frame` (`z` = what the real
+    compressor returned for this call, `-` if none; `mask` = the 4 random mask bytes, `-` if none)
+  * `C|<code>|<msg hex>|<mask hex>` = `close(code, message)`;  `X` = the transport starts closing.
+  Reply: one token per op (`ok|reset|pack`,`<_output_size>`,`<compressor used>`), then ` out=<hex>`.
+`hdr <firstByte> <maskBit> <len>` — `frameHeader`.
+`mask <key hex> <data hex>` — `maskBytes`.
+`conc <label>…` — the lock/executor scheduling model (see AioModel/C11Conc.lean).
+-/
 namespace Aio.Driver.C11
-open Aio Aio.Wire
+open Aio Aio.Wire Aio.C11
+
+def showWErr : Option WErr → String
+  | none => "ok" | some .reset => "reset" | some .pack => "pack"
+
+def showZCall : ZCall → String
+  | .plain => "plain"
+  | .shared w f e => s!"shared:{w}:{showBool f}:{showBool e}"
+  | .fresh w f e => s!"fresh:{w}:{showBool f}:{showBool e}"
+
+def runW (cfg : WCfg) : WS → List String → List String → Option (WS × List String)
+  | w, [], acc => some (w, acc.reverse)
+  | w, op :: ops, acc =>
+    match op.splitOn "|" with
+    | ["S", oc, m, ov, mk, z] =>
+      match oc.toNat?, parseHex m, ov.toNat?, parseHex mk, parseHex z with
+      | some oc, some m, some ov, some mk, some z =>
+        let (w', e) := sendFrameZ cfg w m oc ov mk z
+        let zc := if w.closing ∧ oc &&& 8 = 0 then "none" else showZCall (route cfg oc ov m.length)
+        runW cfg w' ops (s!"{showWErr e},{w'.outputSize},{zc}" :: acc)
+      | _, _, _, _, _ => none
+    | ["C", code, m, mk] =>
+      match code.toNat?, parseHex m, parseHex mk with
+      | some code, some m, some mk =>
+        let (w', e) := closeZ cfg w code m mk
+        runW cfg w' ops (s!"{showWErr e},{w'.outputSize},close" :: acc)
+      | _, _, _ => none
+    | ["X"] => runW cfg { w with transportClosing := true } ops ("x" :: acc)
+    | _ => none
+
+namespace Conc
+open Aio.C11.Conc
+
+def parseKind : String → Option Kind
+  | "p" => some .plain | "y" => some .sync | "e" => some .exec | _ => none
+
+def parseLabel (s : String) : Option Label :=
+  match s.splitOn ":" with
+  | ["s", t, k] => do pure (.spawn (← t.toNat?) (← parseKind k))
+  | ["c", t] => do pure (.cancel (← t.toNat?))
+  | ["e"] => some .execDone
+  | ["t"] => some .tick
+  | _ => none
+
+def showIds (l : List Nat) : String := if l.isEmpty then "-" else ".".intercalate (l.map toString)
+
+def showS (s : S) : String :=
+  s!"{showBool s.locked}/{s.waiters.length}/{match s.inExec with | some t => toString t | none => "-"}/{showIds s.wireAll}"
+
+def runL : S → List Label → List String → S × List String
+  | s, [], acc => (s, acc.reverse)
+  | s, l :: ls, acc => let s' := step s l; runL s' ls (showS s' :: acc)
+
+def handle (labels : List String) : String :=
+  match labels.mapM parseLabel with
+  | none => "bad-op"
+  | some ls =>
+    let (s, outs) := runL {} ls []
+    " ".intercalate outs ++ s!" comp={showIds s.compLog} wire={showIds s.wire}"
+end Conc
 
 def handle : List String → String
+  | "w" :: um :: cp :: nt :: lim :: ops =>
+    match cp.toNat?, lim.toNat? with
+    | some cp, some lim =>
+      let cfg : WCfg := { useMask := parseBool um, compress := cp, notakeover := parseBool nt, limit := lim }
+      match runW cfg {} ops [] with
+      | some (w, outs) => " ".intercalate outs ++ s!" closing={showBool w.closing} out=" ++ showHex w.out
+      | none => "bad-op"
+    | _, _ => "bad-op"
+  | ["hdr", fb, mb, n] =>
+    match fb.toNat?, mb.toNat?, n.toNat? with
+    | some fb, some mb, some n => showHex (frameHeader fb mb n)
+    | _, _, _ => "bad-op"
+  | ["mask", k, d] =>
+    match parseHex k, parseHex d with
+    | some k, some d => showHex (C12.maskBytes k d)
+    | _, _ => "bad-op"
+  | "conc" :: labels => Conc.handle labels
   | _ => "bad-op"
 
 end Aio.Driver.C11
